@@ -764,7 +764,7 @@ func c02Mapper(user string) func(string) string {
 }
 
 func TestVerif_C02(t *testing.T) {
-	res := newVerifResult("12 server configurations (plain; extension templates + Kerberos realm + group database with prefix; Ed25519 CA + templates + normalisation disabled; templates whose expansion fails: command substitution in a value / in a name, arithmetic errors that depend on the length or the characters of the user name, unterminated forms; published-keys family: keymaster_public_keys_filename listing foreign keys / own main key / own Ed25519 key / both twice after a foreign key with an Ed25519 CA, own main key without one - reduced request set) x user names (case variants, dots, dashes, plus, UTF-8 precomposed / decomposed, trailing dot, 1 / 63 / 64 / 65 / 255 bytes, names sharing a 64-byte prefix, seeded random) x 7 key types/sizes x {ssh, x509, x509-kubernetes} x addGroups; requests for other names (case variants, prefixes, other users); logins with case variants; non-trivial = a certificate was issued; distinct by (configuration, name, key, type, groups flag, outcome)")
+	res := newVerifResult("12 server configurations (plain; extension templates + Kerberos realm + group database with prefix; Ed25519 CA + templates + normalisation disabled; templates whose expansion fails: command substitution in a value / in a name, arithmetic errors that depend on the length or the characters of the user name, unterminated forms; published-keys family: keymaster_public_keys_filename listing foreign keys / own main key / own Ed25519 key / both twice after a foreign key with an Ed25519 CA, own main key without one - reduced request set) x user names (case variants, dots, dashes, plus, UTF-8 precomposed / decomposed, trailing dot, 1 / 63 / 64 / 65 / 255 bytes, names sharing a 64-byte prefix, seeded random) x 7 key types/sizes x {ssh, x509, x509-kubernetes} x addGroups; requests for other names (case variants, prefixes, other users); logins with case variants; in every configuration with templates the SSH request of three users again with environment variables named like every variable the templates refer to set to foreign values (root, another user) in the process environment; non-trivial = a certificate was issued; distinct by (configuration, name, key, type, groups flag, outcome, environment)")
 	rng := mrand.New(mrand.NewSource(verifSeed()))
 	keys := c02Keys()
 	_, edPriv, err := ed25519.GenerateKey(rand.Reader)
